@@ -9,6 +9,7 @@ import (
 	"flag"
 	"fmt"
 	"os"
+	"sort"
 	"strconv"
 
 	getoptions "github.com/DavidGamba/go-getoptions"
@@ -60,9 +61,13 @@ func tOptDef(o *OptDef) *T {
 	setc := Ctor("None")
 	switch o.SetCalled {
 	case 1:
-		setc = Ctor("Some", Bool(true))
+		setc = Ctor("Some", Pair(Bool(true), Bool(false)))
 	case 2:
-		setc = Ctor("Some", Bool(false))
+		setc = Ctor("Some", Pair(Bool(false), Bool(false)))
+	case 3:
+		setc = Ctor("Some", Pair(Bool(true), Bool(true)))
+	case 4:
+		setc = Ctor("Some", Pair(Bool(false), Bool(true)))
 	}
 	reqmsg := ""
 	if o.Required && o.HasReqMsg {
@@ -120,6 +125,89 @@ type BuildObs struct {
 	term       *T
 }
 
+// inheritanceOracle - written from the documented rule, not from the model: once HelpCommand has been
+// declared (it is the last call of a linearised definition) every command has, in its own option
+// table, every spelling of every option declared on it or on an ancestor, up to and including the
+// nearest UnsetOptions wrapper.  An option missing there cannot be parsed at that level, is not in
+// the view its function gets, is not offered by completion and is not listed by the level's help.
+func inheritanceOracle(p *ProgDef, root *getoptions.VerifNode) []OracleHit {
+	hits := []OracleHit{}
+	var walk func(path []*CmdDef, n *getoptions.VerifNode)
+	walk = func(path []*CmdDef, n *getoptions.VerifNode) {
+		have := map[string]bool{}
+		for _, k := range n.OptionKeys {
+			have[k] = true
+		}
+		names := ""
+		for _, c := range path[1:] {
+			names += " " + c.Name
+		}
+		declared := []OptDef{}
+		for _, c := range path {
+			if c.UnsetOptions {
+				declared = []OptDef{}
+			}
+			declared = append(append(declared, c.Opts...), c.LateOpts...)
+		}
+		for _, o := range declared {
+			for _, k := range optKeys(o) {
+				if !have[k] && len(hits) < 3 {
+					hits = append(hits, OracleHit{Key: "inherited-option-missing",
+						What: fmt.Sprintf("option %q (spelling %q) is declared on the command path `prog%s` or above it, HelpCommand was declared afterwards, yet the option table of `prog%s` does not contain it: it cannot be given there and the help of that level does not list it", o.Name, k, names, names)})
+				}
+			}
+		}
+		cur := path[len(path)-1]
+		for _, sub := range cur.Cmds {
+			for i, ck := range n.CommandKeys {
+				if ck == sub.Name && i < len(n.Commands) {
+					walk(append(append([]*CmdDef{}, path...), sub), n.Commands[i])
+				}
+			}
+		}
+	}
+	walk([]*CmdDef{p.Root}, root)
+	return hits
+}
+
+// helpTopicsOracle - the topics completion offers after `<commands...> help ` are the static
+// suggestions of that level's help command; the applicable ones are exactly the names runHelp accepts
+// there: the other commands of the same level.
+func helpTopicsOracle(p *ProgDef, root *getoptions.VerifNode) []OracleHit {
+	hits := []OracleHit{}
+	var walk func(path string, n *getoptions.VerifNode)
+	walk = func(path string, n *getoptions.VerifNode) {
+		if n.Name == p.HelpName && path != "" {
+			return
+		}
+		want := []string{}
+		var help *getoptions.VerifNode
+		for i, k := range n.CommandKeys {
+			if k == p.HelpName {
+				help = n.Commands[i]
+			} else {
+				want = append(want, k)
+			}
+		}
+		if help != nil {
+			got := append([]string{}, help.Suggestions...)
+			sort.Strings(got)
+			sort.Strings(want)
+			if fmt.Sprintf("%q", got) != fmt.Sprintf("%q", want) && len(hits) < 3 {
+				hits = append(hits, OracleHit{Key: "help-topics",
+					What: fmt.Sprintf("completion after `prog%s %s ` offers %q; the help topics accepted at that level (its other commands) are %q", path, p.HelpName, got, want)})
+			}
+		}
+		for i, k := range n.CommandKeys {
+			if k != p.HelpName {
+				walk(path+" "+k, n.Commands[i])
+			}
+		}
+	}
+	walk("", root)
+	return hits
+}
+
 func runBuild(p *ProgDef, ops []Op) *BuildObs {
 	obs := &BuildObs{Prog: p, Ops: ops, Oracle: map[string][]OracleHit{}}
 	obs.Key = fmt.Sprintf("%x", jsonOf(ops)+jsonOf(p.Env))
@@ -163,6 +251,16 @@ func runBuild(p *ProgDef, ops []Op) *BuildObs {
 		}
 		root = tNode(d.Root, "", meta)
 		nopts, ncmds = len(d.Options), countNodes(d.Root)
+		if p.Help && jsonOf(ops) == jsonOf(Linearise(p)) {
+			for _, h := range inheritanceOracle(p, d.Root) {
+				for _, pid := range []string{"C03", "C10", "C17", "C18"} {
+					obs.Oracle[pid] = append(obs.Oracle[pid], h)
+				}
+			}
+			for _, h := range helpTopicsOracle(p, d.Root) {
+				obs.Oracle["C17"] = append(obs.Oracle["C17"], h)
+			}
+		}
 	}
 	obs.Hist = []string{fmt.Sprintf("panicked:%v", obs.Panicked), "mode:" + modeNames[p.Mode]}
 	if p.Help {
